@@ -152,6 +152,9 @@ func checkC06(w *World, r *Report) {
 		}
 	})
 
+	r.Rule("R06.7", "a closure that outlives the call that created it (instructions, wrappers put into the function table, matchers) never writes a variable captured from that call's frame: such a variable would be one cell shared by all invocations", 1)
+	r.guard("R06.7", func() { c06CapturedWrites(w, r) })
+
 	r.Rule("R06.4", "generated parsers are re-entrant: each <p>Parse allocates its parser state per call", 3)
 	r.guard("R06.4", func() { c06Reentrant(w, r) })
 
@@ -655,4 +658,89 @@ func c06FreshContext(w *World, r *Report) {
 		r.Check(ok && strings.Join(shared, ",") == "prog", "R06.5", name, fn.Pos(), "shares only prog with the machine; everything else fresh or caller-supplied",
 			"the context shares {"+strings.Join(shared, ",")+"} with the machine (only the immutable program may be shared)")
 	}
+}
+
+// c06CapturedWrites (R06.7): a closure that outlives the call that created it
+// must not write a variable captured from that call's frame — such a variable
+// is one cell shared by every later invocation of the closure (concurrent runs
+// overwrite each other's value). Closures that are only deferred or called on
+// the spot may write their creator's variables (named results, accumulators).
+func c06CapturedWrites(w *World, r *Report) {
+	n := 0
+	var writes func(cf *ssa.Function, idx int, depth int) (bool, token.Pos)
+	writes = func(cf *ssa.Function, idx int, depth int) (bool, token.Pos) {
+		if depth > 4 || idx >= len(cf.FreeVars) {
+			return false, token.NoPos
+		}
+		fv := cf.FreeVars[idx]
+		for _, b := range cf.Blocks {
+			for _, in := range b.Instrs {
+				switch x := in.(type) {
+				case *ssa.Store:
+					if x.Addr == ssa.Value(fv) {
+						return true, x.Pos()
+					}
+				case *ssa.MakeClosure:
+					for j, bnd := range x.Bindings {
+						if bnd == ssa.Value(fv) {
+							if ok, pos := writes(x.Fn.(*ssa.Function), j, depth+1); ok {
+								return true, pos
+							}
+						}
+					}
+				}
+			}
+		}
+		return false, token.NoPos
+	}
+	escapes := func(mc *ssa.MakeClosure) bool {
+		for _, ref := range *mc.Referrers() {
+			switch x := ref.(type) {
+			case *ssa.DebugRef:
+			case *ssa.Defer:
+				if x.Call.Value != ssa.Value(mc) {
+					return true
+				}
+			case *ssa.Call:
+				if x.Call.Value != ssa.Value(mc) {
+					return true
+				}
+			default:
+				return true
+			}
+		}
+		return false
+	}
+	for _, key := range c06XPathKeys {
+		for _, f := range allFuncs(w.SSAPkg(key)) {
+			if isTestFile(w, f.Pos()) {
+				continue
+			}
+			for _, b := range f.Blocks {
+				for _, in := range b.Instrs {
+					mc, ok := in.(*ssa.MakeClosure)
+					if !ok || !escapes(mc) {
+						continue
+					}
+					cf := mc.Fn.(*ssa.Function)
+					for i, bnd := range mc.Bindings {
+						al, ok := bnd.(*ssa.Alloc)
+						if !ok || al.Parent() != f {
+							continue
+						}
+						n++
+						if wr, pos := writes(cf, i, 0); wr {
+							name := al.Comment
+							r.Fail("R06.7", fmt.Sprintf("%s: closure writes captured variable %s", funcKey(f), name), pos, "the closure is returned or stored, so it outlives this call, and it writes `"+name+"`, a variable of the creating call's frame: one cell shared by all its invocations — concurrent (or interleaved) calls read each other's value")
+						}
+					}
+				}
+			}
+		}
+	}
+	r.Count("captured variables of escaping closures examined", n)
+	if n == 0 {
+		panic(undecided{"no escaping closure captures a variable"})
+	}
+	r.OK("R06.7", "escaping closures only read what they capture", token.NoPos, fmt.Sprintf("%d captured variables of closures that outlive their creator; none is written by the closure", n))
 }
